@@ -6,6 +6,8 @@ import FordModel.Admonition
 import FordModel.Meta
 import FordModel.Attach
 import FordModel.Reader
+import FordModel.MdState
+import FordModel.Lemmas.MdState
 import FordModel.Lemmas.Admonition
 import FordModel.Lemmas.Meta
 import FordModel.Lemmas.Attach
@@ -159,15 +161,55 @@ theorem metaSplit_colon_line_witness :
 
 /-- `read_metadata`'s one-line rule: a doc comment consisting of a single line that
     contains a colon but does not start with the name of an entity setting is body text,
-    not metadata. -/
-theorem single_line_with_colon_is_text (fields : List Str) (l : Str) (hc : l.contains ':' = true)
+    not metadata (both variants of the rule). -/
+theorem single_line_with_colon_is_text (tb : Bool) (fields : List Str) (l : Str) (hc : l.contains ':' = true)
     (hf : fields.contains (lower (strip (l.takeWhile (· != ':')))) = false) :
-    readMetadata fields [l] = ([], [l]) := by
+    readMetadata tb fields [l] = ([], [l]) := by
   have hc' : ':' ∈ l := by simpa using hc
   have hf' : ¬ (lower (strip (l.takeWhile (· != ':'))) ∈ fields) := by simpa using hf
-  have hfix : readMetaFix fields [l] = [[], l] := by
-    simp [readMetaFix, hc', hf']
+  have hfix : readMetaFix tb fields [l] = [[], l] := by
+    simp [readMetaFix, isOneLine, hc', hf']
   simp [readMetadata, hfix, metaSplit, beginRe, startsWith, metaLoop, isBlank]
+
+/-- The other half of the one-line rule: a doc comment consisting of the single line
+    `Key: value` whose key is the name of an entity setting **written in any case** sets that
+    (lower-cased) metadata key and shows nothing — for every table of settings, every word
+    `k` with `lower k` in the table and every value.  (A key test that is case-sensitive, or
+    that accepts names outside the table, is a different function: see the examples below.) -/
+theorem single_line_known_key_is_metadata (tb : Bool) (fields : List Str) (k v : Str) (hne : k ≠ [])
+    (hw : k.all isWord = true) (hv : valOK v = true) (hf : lower k ∈ fields) :
+    readMetadata tb fields [k ++ ':' :: ' ' :: v] = ([(lower k, [v])], []) := by
+  obtain ⟨b1, b2, b3, v', b4, b5⟩ := key_line_any k v hne hw hv
+  have hfix : readMetaFix tb fields [k ++ ':' :: ' ' :: v] = [k ++ ':' :: ' ' :: v] := by
+    simp [readMetaFix, isOneLine, takeWhile_colon k _ hw, strip_word k hw, hf]
+  simp [readMetadata, hfix, metaSplit, b3, metaLoop, b1, b2, b4, b5, addMeta]
+
+/-- One comment, two shapes: the one-line form `Key: value` and the header form
+    (`Key: value`, blank line, body) give the same metadata for a known key in any case. -/
+theorem single_line_agrees_with_header (tb : Bool) (fields : List Str) (k v : Str) (body : List Str) (hne : k ≠ [])
+    (hw : k.all isWord = true) (hv : valOK v = true) (hf : lower k ∈ fields) :
+    (readMetadata tb fields [k ++ ':' :: ' ' :: v]).1 = (metaSplit ((k ++ ':' :: ' ' :: v) :: [] :: body)).1 := by
+  obtain ⟨b1, b2, b3, v', b4, b5⟩ := key_line_any k v hne hw hv
+  rw [single_line_known_key_is_metadata tb fields k v hne hw hv hf]
+  have hb0 : isBlank ([] : Str) = true := rfl
+  simp [metaSplit, b3, metaLoop, b1, b2, b4, b5, addMeta, hb0]
+
+/-- Finding C03-oneline-text-with-colon-lost-before-blank-line, as the code is (`tb = false`):
+    the empty doc line that the reader emits for a blank line after the comment defeats the
+    one-line rule and the comment is swallowed as an unknown key; with the repair it is text. -/
+theorem single_line_then_blank_witness :
+    readMetadata false Gen.entityFields ["Note: must be positive".toList, []]
+        = ([("note".toList, ["must be positive".toList])], []) ∧
+    readMetadata true Gen.entityFields ["Note: must be positive".toList, []]
+        = ([], ["Note: must be positive".toList, []]) := by
+  decide
+
+/-- non-vacuity of the one-line theorems on the generated table: capitalised known key,
+    unknown key, and a name that is an attribute but not a field of the settings class -/
+example : readMetadata false Gen.entityFields ["Author: Jane".toList] = ([("author".toList, ["Jane".toList])], []) ∧
+    readMetadata false Gen.entityFields ["Note: text".toList] = ([], ["Note: text".toList]) ∧
+    readMetadata false Gen.entityFields ["update: text".toList] = ([], ["update: text".toList]) := by
+  decide
 
 /-- non-vacuity of `metaSplit_header`: a two-key header with a continuation value -/
 example : metaSplit (headerLines [("author".toList, ["A B".toList, "C".toList]), ("version".toList, ["1.0".toList])]
@@ -243,5 +285,49 @@ example :
     (readAll m ["integer :: x".toList, "!~ a".toList, "! b".toList]).toOption = want ∧
     (readAll m ["!$ a".toList, "! b".toList, "integer :: x".toList]).toOption = want := by
   decide
+
+/-! ## One Markdown instance for all entities (`Project.markdown`, `FortranBase.markdown`) -/
+
+/-- Neighbours' documentation never becomes part of an entity's: whatever the shared Markdown
+    instance held before (`st`) and however many comments with whatever definitions were
+    converted earlier, the link targets and the footnotes rendered for each comment are
+    exactly those of that comment converted alone by an unused instance — because `reset`
+    precedes every `convert`.  Holds in both variants of the abbreviation handling. -/
+theorem markdown_links_footnotes_isolated (fix : Bool) (st : MdState) (docs : List (List Str)) :
+    (markdownAll fix st docs).map (fun o => (o.links, o.foots)) =
+      docs.map (fun d => ((mdAlone d).links, (mdAlone d).foots)) := by
+  induction docs generalizing st with
+  | nil => rfl
+  | cons d ds ih =>
+    obtain ⟨h1, h2⟩ := mdConvert_reset_links_foots fix st d
+    simp only [markdownAll, List.map_cons, h1, h2, ih]
+
+/-- With `reset` also removing the registered abbreviation patterns
+    (fixes/C03-abbr-reset.diff) the whole table-dependent output of every comment is that of
+    the comment alone. -/
+theorem markdown_isolated_when_abbr_reset (st : MdState) (docs : List (List Str)) :
+    markdownAll true st docs = docs.map mdAlone := by
+  induction docs generalizing st with
+  | nil => rfl
+  | cons d ds ih => simp only [markdownAll, List.map_cons, mdConvert_reset_fixed, ih]
+
+/-- Finding C03-abbreviation-leaks-to-later-entities, as the code is: the second comment only
+    mentions `ABX`, and gets the title words of the first comment. -/
+theorem markdown_abbr_leak_witness :
+    (markdownAll false mdEmpty [["ABX one".toList, [], "*[ABX]: words of a".toList], ["ABX two".toList]]).map (·.titles)
+      = [["words of a".toList], ["words of a".toList]] ∧
+    (mdAlone ["ABX two".toList]).titles = [] := by
+  decide
+
+/-- non-vacuity: isolation is a property of the loop (the `reset`), not of `convert` — an
+    instance that still holds another comment's footnote and link definition renders them -/
+example : (mdConvert ⟨[("r1".toList, "http://x/other".toList)], [("1".toList, "other words".toList)], []⟩
+            ["see [this][R1]".toList]).2
+    = ⟨["http://x/other".toList], ["other words".toList], []⟩ := by decide
+
+/-- non-vacuity: own definitions are used, undefined labels stay text -/
+example : mdAlone ["a[^1] [b][r1] [c][r2] ABX".toList, [], "[^1]: foot words".toList, [],
+                   "[r1]: http://x/u1".toList, "*[ABX]: title words".toList]
+    = ⟨["http://x/u1".toList], ["foot words".toList], ["title words".toList]⟩ := by decide
 
 end Ford.C03
